@@ -5,7 +5,7 @@ import numpy as np
 from hypothesis import strategies as st
 
 from .. import repo, strategies as S, trcases as TR
-from ..core import SubCheck, Fail, Discard, metric, target
+from ..core import SubCheck, Fail, Discard, metric, target, is_seq
 from ..oracles import helmert_ref as H
 
 RULE = ("points with |x|,|y|,|z| <= 5e7 m (all octants, axes, Earth-surface shell) x every shipped parameter set (complete "
@@ -35,7 +35,7 @@ def check_formula(case):
     X = case["X"]
     nk = case.get("num", "float")
     got = tf.conform7(S.as_kind(X[0], nk), S.as_kind(X[1], nk), S.as_kind(X[2], nk), tr)
-    if not (isinstance(got, tuple) and len(got) == 4):
+    if not is_seq(got, 4):
         raise Fail("conform7 did not return (x, y, z, vcv)", observed=repr(got))
     want = H.apply_float(p, X)
     d = _dist(got[:3], want)
@@ -99,7 +99,7 @@ def check_covariance(case):
     if not np.array_equal(V, V_before.astype(float)):
         raise Fail("conform7 modified the caller's covariance matrix", expected=V_before, observed=V)
     # the point is transformed by the same formula whether or not a covariance travels with it
-    if not (isinstance(got, tuple) and len(got) == 4):
+    if not is_seq(got, 4):
         raise Fail("conform7 did not return (x, y, z, vcv)", observed=repr(got))
     d = _dist(got[:3], H.apply_float(p, X))
     if not d <= 1e-6:
